@@ -81,7 +81,7 @@ pub fn check_c10(ctx: &mut Ctx, input: &[u8]) {
             ctx.violate(
                 "no-panic",
                 "Sdes",
-                &format!("panic@{}", crate::drive::site_file(&p.site)),
+                &crate::drive::panic_feature(&p),
                 || bytes_case("c10", b),
                 "parse and accessors return",
                 format!("panic at {}: {} on {}", short_site(&p.site), p.msg, hex(&b[..b.len().min(64)])),
@@ -350,7 +350,7 @@ pub fn check_c15(ctx: &mut Ctx, transport: bool, fmt: u8, fci: &[u8]) {
             ctx.violate(
                 "no-panic",
                 if transport { "TransportFeedback" } else { "PayloadFeedback" },
-                &format!("panic@{}", crate::drive::site_file(&p.site)),
+                &crate::drive::panic_feature(&p),
                 case,
                 "parse_fci and the FCI iterators return",
                 format!("panic at {}: {} on {}", short_site(&p.site), p.msg, hex(&b[..b.len().min(48)])),
@@ -474,7 +474,7 @@ pub fn check_c15_direct(ctx: &mut Ctx, fci_in: &[u8]) {
         Err(p) => ctx.violate(
             "no-panic",
             "FciParser",
-            &format!("panic@{}", crate::drive::site_file(&p.site)),
+            &crate::drive::panic_feature(&p),
             || bytes_case("c15-direct", fci),
             "FCI parsers and iterators return",
             format!("panic at {}: {} on {}", short_site(&p.site), p.msg, hex(&fci[..fci.len().min(40)])),
@@ -736,7 +736,7 @@ pub fn check_c13(ctx: &mut Ctx, base: &[u8], pad: u8) {
         Err(p) => ctx.violate(
             "no-panic",
             name,
-            &format!("panic@{}", crate::drive::site_file(&p.site)),
+            &crate::drive::panic_feature(&p),
             case,
             "accessors return on the padded packet",
             format!("panic at {}: {} (padding {pad})", short_site(&p.site), p.msg),
